@@ -2,8 +2,11 @@ package core
 
 import (
 	"go/ast"
+	"go/constant"
 	"go/token"
 	"go/types"
+	"os"
+	"sync"
 
 	"golang.org/x/tools/go/cfg"
 )
@@ -56,6 +59,9 @@ type Graph struct {
 	Panic  *V // reached by calls that do not return
 	Defers []*ast.DeferStmt
 	sw     map[*ast.CaseClause]ast.Stmt
+
+	flagsOnce sync.Once
+	flags     bool
 }
 
 // Graph returns the control-flow graph of the function body.
@@ -290,6 +296,45 @@ func (a *Avoid) WithEdges(es ...EdgeRef) *Avoid {
 // entering avoided vertices or using avoided edges.  If startAt is true the
 // search starts at from itself (from is included).
 func (g *Graph) ReachFrom(from *V, startAt bool, avoid *Avoid) map[*V]bool {
+	if g.usesFlags() {
+		// decisions carried in constant-valued locals are followed
+		return g.ReachFromTracked(from, startAt, avoid)
+	}
+	return g.reachPlain(from, startAt, avoid)
+}
+
+// usesFlags reports whether some branch of the graph tests a local variable
+// that is only ever assigned constants (a flag or an enumeration) and has at
+// least two different values: only then can path-sensitivity change anything.
+func (g *Graph) usesFlags() bool {
+	g.flagsOnce.Do(func() {
+		if os.Getenv("PDFVERIF_NOFLAGS") != "" {
+			return
+		}
+		for _, bv := range g.BranchVertices() {
+			for _, l := range []EdgeLabel{EdgeTrue, EdgeFalse} {
+				for _, a := range bv.Implied(l) {
+					obj, _, _, ok := g.flagTest(a)
+					if !ok {
+						continue
+					}
+					defs := g.constDefs(obj)
+					vals := map[int64]bool{}
+					for _, d := range defs {
+						vals[d.k] = true
+					}
+					if len(vals) >= 2 {
+						g.flags = true
+						return
+					}
+				}
+			}
+		}
+	})
+	return g.flags
+}
+
+func (g *Graph) reachPlain(from *V, startAt bool, avoid *Avoid) map[*V]bool {
 	seen := map[*V]bool{}
 	var stack []*V
 	push := func(v *V) {
@@ -469,11 +514,176 @@ func (g *Graph) GuardEdges(pred func(a Atom) bool) []EdgeRef {
 // GuardedBy reports whether site can only be reached through an edge on
 // which some fact accepted by pred holds.
 func (g *Graph) GuardedBy(site *V, pred func(a Atom) bool) bool {
+	return g.guardedBy(site, pred, 2)
+}
+
+func (g *Graph) guardedBy(site *V, pred func(a Atom) bool, depth int) bool {
 	es := g.GuardEdges(pred)
-	if len(es) == 0 {
+	if len(es) > 0 && g.EdgeDominates(site, es...) {
+		return true
+	}
+	if depth == 0 {
 		return false
 	}
-	return g.EdgeDominates(site, es...)
+	// The decision may have been taken earlier and be carried in a local
+	// variable (a flag or an enumeration: role = waiter; ...; switch role):
+	// site is guarded by "x == K" and every assignment that can give x a
+	// value satisfying that test is itself guarded by a fact pred accepts.
+	for _, bv := range g.BranchVertices() {
+		for _, l := range []EdgeLabel{EdgeTrue, EdgeFalse} {
+			if !g.EdgeDominates(site, EdgeRef{From: bv, Label: l}) {
+				continue
+			}
+			for _, a := range bv.Implied(l) {
+				obj, k, eq, ok := g.flagTest(a)
+				if !ok {
+					continue
+				}
+				defs := g.constDefs(obj)
+				if defs == nil {
+					continue
+				}
+				all, any := true, false
+				for _, d := range defs {
+					if (d.k == k) != eq {
+						continue // this assignment does not satisfy the test
+					}
+					// does it reach the test?
+					var others []*V
+					for _, x := range defs {
+						if x.v != d.v {
+							others = append(others, x.v)
+						}
+					}
+					if !g.ReachFrom(d.v, false, AvoidVs(others...))[bv] {
+						continue
+					}
+					any = true
+					if !g.guardedBy(d.v, pred, depth-1) {
+						all = false
+					}
+				}
+				if any && all {
+					return true
+				}
+			}
+		}
+	}
+	return false
+}
+
+type constDef struct {
+	v *V
+	k int64
+}
+
+// flagTest interprets an atom as a test of a local variable against a
+// constant: x == K / x != K (also from switch cases), or a boolean x / !x.
+func (g *Graph) flagTest(a Atom) (obj types.Object, k int64, eq bool, ok bool) {
+	local := func(e ast.Expr) types.Object {
+		id, isID := ast.Unparen(e).(*ast.Ident)
+		if !isID {
+			return nil
+		}
+		v, isVar := g.Info.ObjectOf(id).(*types.Var)
+		if !isVar || v.IsField() || v.Pkg() == nil || v.Parent() == v.Pkg().Scope() {
+			return nil
+		}
+		return v
+	}
+	if cmp, isCmp := a.AsCmp(); isCmp && (cmp.Op == token.EQL || cmp.Op == token.NEQ) {
+		for _, pair := range [][2]ast.Expr{{cmp.L, cmp.R}, {cmp.R, cmp.L}} {
+			if o := local(pair[0]); o != nil {
+				if c, isC := constVal(g.Info, pair[1]); isC {
+					return o, c, cmp.Op == token.EQL, true
+				}
+			}
+		}
+		return nil, 0, false, false
+	}
+	if a.Tag == nil {
+		if o := local(a.Expr); o != nil {
+			if b, isB := o.Type().Underlying().(*types.Basic); isB && b.Info()&types.IsBoolean != 0 {
+				return o, 1, !a.Neg, true
+			}
+		}
+	}
+	return nil, 0, false, false
+}
+
+func constVal(info *types.Info, e ast.Expr) (int64, bool) {
+	tv, ok := info.Types[e]
+	if !ok || tv.Value == nil {
+		return 0, false
+	}
+	switch tv.Value.Kind() {
+	case constant.Bool:
+		if constant.BoolVal(tv.Value) {
+			return 1, true
+		}
+		return 0, true
+	case constant.Int:
+		n, exact := constant.Int64Val(tv.Value)
+		return n, exact
+	}
+	return 0, false
+}
+
+// constDefs returns the assignments of obj when all of them assign
+// constants (zero-value declarations count as 0); nil otherwise.
+func (g *Graph) constDefs(obj types.Object) []constDef {
+	var out []constDef
+	for _, v := range g.Vs {
+		switch s := v.AST.(type) {
+		case *ast.AssignStmt:
+			for i, l := range s.Lhs {
+				id, ok := ast.Unparen(l).(*ast.Ident)
+				if !ok || g.Info.ObjectOf(id) != obj {
+					continue
+				}
+				if len(s.Lhs) != len(s.Rhs) || (s.Tok != token.ASSIGN && s.Tok != token.DEFINE) {
+					return nil
+				}
+				k, isK := constVal(g.Info, s.Rhs[i])
+				if !isK {
+					return nil
+				}
+				out = append(out, constDef{v, k})
+			}
+		case *ast.DeclStmt:
+			gd, ok := s.Decl.(*ast.GenDecl)
+			if !ok {
+				continue
+			}
+			for _, sp := range gd.Specs {
+				vs, ok := sp.(*ast.ValueSpec)
+				if !ok {
+					continue
+				}
+				for i, n := range vs.Names {
+					if g.Info.ObjectOf(n) != obj {
+						continue
+					}
+					if len(vs.Values) == 0 {
+						out = append(out, constDef{v, 0})
+					} else if len(vs.Values) == len(vs.Names) {
+						k, isK := constVal(g.Info, vs.Values[i])
+						if !isK {
+							return nil
+						}
+						out = append(out, constDef{v, k})
+					} else {
+						return nil
+					}
+				}
+			}
+		case *ast.IncDecStmt:
+			if id, ok := ast.Unparen(s.X).(*ast.Ident); ok && g.Info.ObjectOf(id) == obj {
+				return nil
+			}
+		}
+	}
+	return out
 }
 
 // InLoop reports whether v lies on a cycle.
